@@ -359,7 +359,7 @@ def build(tier, seed):
 
     # ---------------- EDATE / EOMONTH
     def sp_edate(eom, ycon, KR=None):
-        KR = KR if KR is not None else (600 if tier == 'thorough' else 24)
+        KR = KR if KR is not None else (120 if tier == 'thorough' else 24)
         lo = max(61, datetime.date(ycon, 1, 1).toordinal() - REF0)
         hi = datetime.date(ycon, 12, 31).toordinal() - REF0
 
@@ -416,7 +416,7 @@ def build(tier, seed):
             samples = [smp(x, max(-KR, min(KR, kk))) for x, kk in ((lo, 1), (lo, -1), (lo + 30, 13), (hi, 2), (hi - 306, 12), (lo + 58, -3), (hi, 0), (lo + 59, KR)) if lo <= x <= hi]
             return dict(encode=encode, bad=bad, replay=replay, norm=norm, native=call, samples=samples, show=lambda a: f'{"EOMONTH" if eom else "EDATE"}({a["n"]}, {a["k"]})')
         return spec
-    KR = 600 if tier == 'thorough' else 24
+    KR = 120 if tier == 'thorough' else 24
     add('EDATE[start in 1900, short offsets]', sp_edate(False, 1900, 3), 'every whole serial 61.. of the year 1900 x month offsets -3..3 (results before 1900-01-01 give #NUM!)', cost=30, timeout=600)
     add('EOMONTH[start in 1900, short offsets]', sp_edate(True, 1900, 3), 'every whole serial 61.. of the year 1900 x month offsets -3..3', cost=30, timeout=600)
     for ycon in (1950, 1999, 2000, 2023, 2024, 2100, 9000):
